@@ -3,7 +3,8 @@
 Decides: who may write the covered map; the guard that dominates the write; the
 replacement rule of `_is_better_than_current` as a truth table over its atoms
 (error-free override and strictly-shorter); MIO capacity discipline; the
-DynaMOSA goal manager keeps every uncovered goal.  Re-execution behaviour of
+DynaMOSA goal manager keeps every uncovered goal.  C13.aliasing: archived solutions reach
+local search, which edits test cases in place, only through clone().  Re-execution behaviour of
 archived tests is not decided.
 """
 
